@@ -54,6 +54,7 @@ type Monitor struct {
 	everReleasing    map[common_info.PodID]bool
 	lastKind         map[common_info.PodID]string
 	dupHandler       bool
+	claimHist        ClaimHistory // DRA (dra.go): per session
 	initNode         map[common_info.PodID]string
 	initGroups       map[common_info.PodID][]string
 	// the scenario the reclaim / preempt validators accepted last (this monitor's validator runs after all others)
@@ -296,6 +297,7 @@ func (m *Monitor) onEvent(kind string, e *framework.Event) {
 
 // recordInitial remembers, per pod, the node and GPU groups it had when the session was opened.
 func (m *Monitor) recordInitial() {
+	m.claimHist = ClaimHistory{}
 	m.initNode = map[common_info.PodID]string{}
 	m.initGroups = map[common_info.PodID][]string{}
 	m.lastStatus = map[common_info.PodID]pod_status.PodStatus{}
@@ -360,7 +362,7 @@ func (m *Monitor) checkAll(where string) {
 		m.report("C14", "job-accounting", s)
 	}
 	// DRA (dra.go): claims recomputed from the pods vs the DRA manager's view
-	for _, s := range CheckClaims(m.ssn, m.Stats) {
+	for _, s := range m.claimHist.Classify(CheckClaims(m.ssn, m.Stats)) {
 		m.reportClaim(s)
 	}
 	// queue usage is updated by the proportion handler which runs before this one for the same event
@@ -723,7 +725,7 @@ func (m *Monitor) accountingMismatches() map[string]string {
 	add(CheckNodes(m.ssn, m.ghosts(), scratch))
 	add(CheckJobs(m.ssn, scratch))
 	add(CheckQueues(m.ssn, sched.CurrentProportion, scratch))
-	add(CheckClaims(m.ssn, scratch)) // DRA (dra.go)
+	add(m.claimHist.Classify(CheckClaims(m.ssn, scratch))) // DRA (dra.go)
 	return out
 }
 
